@@ -56,7 +56,7 @@ def plain(node):
             return out
         out = [plain(child) for _, child in node.ayns.named_children()]
         if type(node).__name__ not in ('ConfigList',):
-            return {'__kind__': type(node).__name__, 'items': out, **({'ref_point': node.ref_point} if hasattr(node, 'ref_point') else {})}
+            return {'__kind__': type(node).__name__, 'items': out, **({'ref_point': str(node.ref_point)} if hasattr(node, 'ref_point') else {})}
         return out
     if isinstance(node, ConfigNode):
         kind = type(node).__name__
@@ -67,7 +67,8 @@ def plain(node):
         if kind == 'IncludeNode':
             return {'__kind__': kind, 'files': list(node.filenames)}
         try:
-            return {'__kind__': kind, 'value': str(node)}
+            # an f-string node is an eval node of the same text (it is dumped as such)
+            return {'__kind__': 'EvalNode' if kind == 'FStrNode' else kind, 'value': str(node)}
         except Exception:
             return {'__kind__': kind}
     return node
